@@ -98,7 +98,56 @@ func cmdC09(c *ctx) {
 		if i%3 == 0 {
 			emit("multi", genMulti(c).wgsl())
 		}
+		if i%2 == 0 {
+			emit("atomic-wg", genAtomicWG(c))
+		}
 	}
+}
+
+// genAtomicWG: programs built from atomics (workgroup and storage, i32 / u32), workgroupUniformLoad (scalar, vector,
+// array, struct pointees) and barriers, interleaved with filler arithmetic on abstract literals (which lowering
+// concretises and then compacts away, so every later handle is renumbered).
+func genAtomicWG(c *ctx) string {
+	var b strings.Builder
+	b.WriteString("struct WS { a: u32, v: vec2<f32>, }\n")
+	b.WriteString("var<workgroup> wu: u32;\nvar<workgroup> wv: vec4<i32>;\nvar<workgroup> wa: array<u32, 4>;\nvar<workgroup> ws: WS;\n")
+	b.WriteString("var<workgroup> au: atomic<u32>;\nvar<workgroup> ai: atomic<i32>;\n")
+	b.WriteString("@group(0) @binding(0) var<storage, read_write> outp: array<u32>;\n")
+	b.WriteString("@group(0) @binding(1) var<storage, read_write> sa: array<atomic<i32>, 4>;\n")
+	b.WriteString("@group(0) @binding(2) var<storage, read_write> su: atomic<u32>;\n")
+	b.WriteString("@compute @workgroup_size(4)\nfn main(@builtin(local_invocation_index) i: u32) {\n  var acc = i;\n")
+	n := 2 + c.rng.Intn(7)
+	for k := 0; k < n; k++ {
+		t := fmt.Sprintf("t%d", k)
+		switch c.rng.Intn(14) {
+		case 0, 1, 2:
+			fmt.Fprintf(&b, "  let %s = i * %d + %d;\n  acc = acc ^ %s;\n", t, 2+c.rng.Intn(5), 1+c.rng.Intn(9), t)
+		case 3:
+			fmt.Fprintf(&b, "  let %s = workgroupUniformLoad(&wu);\n  acc = acc + %s;\n", t, t)
+		case 4:
+			fmt.Fprintf(&b, "  let %s = workgroupUniformLoad(&wv);\n  acc = acc + u32(%s.y);\n", t, t)
+		case 5:
+			fmt.Fprintf(&b, "  let %s = workgroupUniformLoad(&wa);\n  acc = acc + %s[i %% 4u];\n", t, t)
+		case 6:
+			fmt.Fprintf(&b, "  let %s = workgroupUniformLoad(&ws);\n  acc = acc + %s.a + u32(%s.v.x);\n", t, t, t)
+		case 7:
+			fmt.Fprintf(&b, "  let %s = workgroupUniformLoad(&wa[%d]);\n  acc = acc + %s;\n", t, c.rng.Intn(4), t)
+		case 8:
+			fmt.Fprintf(&b, "  let %s = %s(&au, acc + %d);\n  acc = acc + %s;\n", t, c.pick("atomicAdd", "atomicSub", "atomicMax", "atomicMin", "atomicAnd", "atomicOr", "atomicXor", "atomicExchange"), c.rng.Intn(9), t)
+		case 9:
+			fmt.Fprintf(&b, "  let %s = %s(&sa[i %% 4u], i32(acc) - %d);\n  acc = acc + u32(%s);\n", t, c.pick("atomicAdd", "atomicMax", "atomicMin", "atomicExchange"), c.rng.Intn(9), t)
+		case 10:
+			fmt.Fprintf(&b, "  let %s = atomicCompareExchangeWeak(&%s, %d, acc);\n  if %s.exchanged { acc = acc + %s.old_value; }\n", t, c.pick("au", "su"), c.rng.Intn(3), t, t)
+		case 11:
+			fmt.Fprintf(&b, "  atomicStore(&%s, acc);\n  acc = acc + atomicLoad(&%s);\n", c.pick("au", "su"), c.pick("au", "su"))
+		case 12:
+			fmt.Fprintf(&b, "  atomicStore(&ai, i32(acc) + %d);\n  acc = acc + u32(atomicLoad(&ai));\n", c.rng.Intn(5))
+		default:
+			b.WriteString("  " + c.pick("workgroupBarrier();", "storageBarrier();", "wu = acc;", "wa[i % 4u] = acc;", "ws.a = acc;") + "\n")
+		}
+	}
+	b.WriteString("  outp[i] = acc;\n}\n")
+	return b.String()
 }
 
 func init() { commands["c09"] = cmdC09 }
@@ -112,6 +161,7 @@ func cmdC09Reg(c *ctx) {
 	for i := 0; i < c.n; i++ {
 		r := verifhook.NewTypeRegistry()
 		var reqs, hs []string
+		var prevArr, prevPtr []regPrev
 		k := 2 + c.rng.Intn(14)
 		for j := 0; j < k; j++ {
 			name := ""
@@ -120,7 +170,13 @@ func cmdC09Reg(c *ctx) {
 			}
 			var inner ir.TypeInner
 			var rs string
-			switch c.rng.Intn(6) {
+			b2i := func(b bool) int {
+				if b {
+					return 1
+				}
+				return 0
+			}
+			switch []int{0, 1, 2, 3, 3, 3, 3, 3, 5, 5, 6, 6, 8, 9, 10, 11}[c.rng.Intn(16)] {
 			case 0:
 				kd, w := ir.ScalarKind(c.rng.Intn(4)), uint8([]int{1, 2, 4, 8}[c.rng.Intn(4)])
 				inner, rs = ir.ScalarType{Kind: kd, Width: w}, fmt.Sprintf("scalar %d %d", kd, w)
@@ -130,7 +186,7 @@ func cmdC09Reg(c *ctx) {
 			case 2:
 				cc, rr := 2+c.rng.Intn(3), 2+c.rng.Intn(3)
 				inner, rs = ir.MatrixType{Columns: ir.VectorSize(cc), Rows: ir.VectorSize(rr), Scalar: ir.ScalarType{Kind: ir.ScalarFloat, Width: 4}}, fmt.Sprintf("matrix %d %d %d 4", cc, rr, ir.ScalarFloat)
-			case 3, 4:
+			case 3:
 				b, st := pick(), pick()
 				if c.chance(0.15) {
 					inner, rs = ir.ArrayType{Base: ir.TypeHandle(b), Stride: st}, fmt.Sprintf("array %d runtime %d", b, st)
@@ -138,9 +194,81 @@ func cmdC09Reg(c *ctx) {
 					l := pick()
 					inner, rs = ir.ArrayType{Base: ir.TypeHandle(b), Size: ir.ArraySize{Constant: &l}, Stride: st}, fmt.Sprintf("array %d %d %d", b, l, st)
 				}
-			default:
+			case 5:
 				b, sp := pick(), c.rng.Intn(8)
 				inner, rs = ir.PointerType{Base: ir.TypeHandle(b), Space: ir.AddressSpace(sp)}, fmt.Sprintf("pointer %d %d", b, sp)
+			case 6:
+				// atomics of both signednesses and widths
+				kd, w := ir.ScalarKind(c.rng.Intn(2)), uint8([]int{4, 8}[c.rng.Intn(2)])
+				inner, rs = ir.AtomicType{Scalar: ir.ScalarType{Kind: kd, Width: w}}, fmt.Sprintf("atomic %d %d", kd, w)
+			case 8:
+				// structs: few member names / handles / offsets so that requests collide often
+				var ms []ir.StructMember
+				var msS []string
+				for k, n := 0, 1+c.rng.Intn(3); k < n; k++ {
+					mn, mt, mo := c.pick("a", "b", "a1"), pick(), pick()
+					ms = append(ms, ir.StructMember{Name: mn, Type: ir.TypeHandle(mt), Offset: mo})
+					msS = append(msS, fmt.Sprintf("(%s %d %d)", q(mn), mt, mo))
+				}
+				span := pick()
+				if name == "" {
+					name = c.pick("S", "T")
+				}
+				inner, rs = ir.StructType{Members: ms, Span: span}, fmt.Sprintf("struct %d (%s)", span, strings.Join(msS, " "))
+			case 9:
+				cmp := c.chance(0.5)
+				inner, rs = ir.SamplerType{Comparison: cmp}, fmt.Sprintf("sampler %d", b2i(cmp))
+			case 10:
+				im := ir.ImageType{Dim: ir.ImageDimension(c.rng.Intn(4)), Arrayed: c.chance(0.3), Class: ir.ImageClass(c.rng.Intn(3)), Multisampled: c.chance(0.2)}
+				switch im.Class {
+				case ir.ImageClassStorage:
+					im.StorageFormat = ir.StorageFormat(c.rng.Intn(12))
+					im.StorageAccess = ir.StorageAccess(c.rng.Intn(4))
+				case ir.ImageClassSampled:
+					im.SampledKind = ir.ScalarKind(c.rng.Intn(3))
+				}
+				inner, rs = im, fmt.Sprintf("image %d %d %d %d %d %d %d", im.Dim, b2i(im.Arrayed), im.Class, b2i(im.Multisampled), im.StorageFormat, im.StorageAccess, im.SampledKind)
+			default:
+				switch c.rng.Intn(3) {
+				case 0:
+					inner, rs = ir.AccelerationStructureType{}, "accel"
+				case 1:
+					inner, rs = ir.RayQueryType{}, "rayquery"
+				default:
+					b := pick()
+					if c.chance(0.3) {
+						inner, rs = ir.BindingArrayType{Base: ir.TypeHandle(b)}, fmt.Sprintf("bindingarray %d unbounded", b)
+					} else {
+						n := pick()
+						inner, rs = ir.BindingArrayType{Base: ir.TypeHandle(b), Size: &n}, fmt.Sprintf("bindingarray %d %d", b, n)
+					}
+				}
+			}
+			// adversarial twin: re-split the digits of an earlier array / pointer request at another place (same
+			// concatenation, different fields, same name), so that a key without separators merges the two
+			if len(prevArr) > 0 && c.chance(0.25) {
+				p := prevArr[c.rng.Intn(len(prevArr))]
+				if f, ok := resplit(c, []uint32{p.b, p.l, p.st}); ok {
+					l := f[1]
+					name = p.name
+					inner, rs = ir.ArrayType{Base: ir.TypeHandle(f[0]), Size: ir.ArraySize{Constant: &l}, Stride: f[2]}, fmt.Sprintf("array %d %d %d", f[0], f[1], f[2])
+					c.count("adversarial-array-twin")
+				}
+			} else if len(prevPtr) > 0 && c.chance(0.1) {
+				p := prevPtr[c.rng.Intn(len(prevPtr))]
+				if f, ok := resplit(c, []uint32{p.b, p.l}); ok && f[1] < 8 {
+					name = p.name
+					inner, rs = ir.PointerType{Base: ir.TypeHandle(f[0]), Space: ir.AddressSpace(f[1])}, fmt.Sprintf("pointer %d %d", f[0], f[1])
+					c.count("adversarial-pointer-twin")
+				}
+			}
+			switch t := inner.(type) {
+			case ir.ArrayType:
+				if t.Size.Constant != nil {
+					prevArr = append(prevArr, regPrev{name, uint32(t.Base), *t.Size.Constant, t.Stride})
+				}
+			case ir.PointerType:
+				prevPtr = append(prevPtr, regPrev{name, uint32(t.Base), uint32(t.Space), 0})
 			}
 			h := r.GetOrCreate(name, inner)
 			reqs = append(reqs, fmt.Sprintf("(%s %s)", q(name), rs))
@@ -150,6 +278,57 @@ func cmdC09Reg(c *ctx) {
 		c.line("impl.txt", fmt.Sprintf("handles [%s] size %d", strings.Join(hs, ", "), r.Count()))
 		c.count("request-sequences")
 	}
+}
+
+type regPrev struct {
+	name     string
+	b, l, st uint32
+}
+
+// resplit: the decimal digits of the fields, concatenated and cut at different places into the same number of
+// non-empty fields without leading zeros; ok=false if no other cut exists.
+func resplit(c *ctx, fields []uint32) ([]uint32, bool) {
+	digits := ""
+	for _, f := range fields {
+		digits += fmt.Sprint(f)
+	}
+	n := len(fields)
+	for try := 0; try < 20; try++ {
+		cuts := map[int]bool{}
+		for len(cuts) < n-1 && len(digits) > n-1 {
+			cuts[1+c.rng.Intn(len(digits)-1)] = true
+		}
+		if len(cuts) < n-1 {
+			return nil, false
+		}
+		var out []uint32
+		start, okAll := 0, true
+		for i := 1; i <= len(digits); i++ {
+			if cuts[i] || i == len(digits) {
+				part := digits[start:i]
+				if len(part) > 1 && part[0] == '0' || len(part) > 6 {
+					okAll = false
+				}
+				var v uint32
+				fmt.Sscan(part, &v)
+				out = append(out, v)
+				start = i
+			}
+		}
+		if !okAll || len(out) != n {
+			continue
+		}
+		same := true
+		for i := range out {
+			if out[i] != fields[i] {
+				same = false
+			}
+		}
+		if !same {
+			return out, true
+		}
+	}
+	return nil, false
 }
 
 func init() { commands["c09reg"] = cmdC09Reg }
